@@ -263,6 +263,28 @@ pub fn exec_mat(ops: Vec<Op>, seed: u64) -> Case {
             pat_slots(&p0, &mut sl);
             let mut img: Vec<u32> = PSLOTS.to_vec();
             rng.shuffle(&mut img);
+            if round < 4 && rng.chance(1, 3) {
+                // the pattern's slots are spelled like slots the e-graph invented for its own classes (`$f<N>`, read back from
+                // a printed class): the matcher's internal names for the rest of the match must stay clear of them
+                let mut own: Vec<u32> = Vec::new();
+                for i in eg.ids() {
+                    for sl in eg.slots(i) {
+                        let c = code(sl);
+                        if c % 4 == 1 && !own.contains(&c) {
+                            own.push(c);
+                        }
+                    }
+                }
+                own.sort();
+                rng.shuffle(&mut own);
+                own.truncate(6);
+                for (i, c) in own.into_iter().enumerate() {
+                    img[i] = c;
+                }
+                if !tags.contains(&"t:pattern-slots-named-like-class-slots".to_string()) {
+                    tags.push("t:pattern-slots-named-like-class-slots".into());
+                }
+            }
             let sl2 = sl.clone();
             let p = rename_apat(&p0, &move |c| sl2.iter().position(|x| *x == c).map(|i| img[i % img.len()]).unwrap_or(c));
             // a quarter of the derived patterns with a binder: the binder re-uses a slot name that is already in use in the
@@ -328,7 +350,7 @@ pub fn exec_mat(ops: Vec<Op>, seed: u64) -> Case {
             }
         }
         // multi-patterns: `?o == node(?c..)` equations from e-nodes of tracked terms
-        for round in 0..3 {
+        for round in 0..4 {
             let mut eqs: Vec<(String, Main, Vec<String>)> = Vec::new();
             if round == 2 {
                 // 4-5 equations over two shared child variables and binary operators, optionally pinning a variable
@@ -345,7 +367,90 @@ pub fn exec_mat(ops: Vec<Op>, seed: u64) -> Case {
                     eqs.push((if rng.chance(1, 2) { "a".into() } else { "b".into() }, node, vec![]));
                 }
             }
-            let n_eq = if round == 2 { 0 } else { rng.range(1, 3) };
+            if round == 3 {
+                // a subterm taken apart: one equation for its root node and one for (most of) its children's nodes, the child
+                // variables shared, all slots — free and bound — renamed consistently across the equations (numeric names
+                // `$0..` in half of the cases, the names stored shapes give their binders).  The subterm itself is a match,
+                // found through a chain of slot unifications between already-bound variables and later equations
+                let t = terms[rng.below(terms.len())].clone();
+                let mut subs = Vec::new();
+                subterms(&t, &mut subs);
+                let cands: Vec<ATerm> = subs.into_iter().filter(|u| !u.children.is_empty()).collect();
+                if cands.is_empty() {
+                    continue;
+                }
+                let u = cands[rng.below(cands.len())].clone();
+                fn all_names(f: &CField, out: &mut Vec<u32>) {
+                    match f {
+                        CField::Slot(s) => {
+                            if !out.contains(s) {
+                                out.push(*s)
+                            }
+                        }
+                        CField::Bind(s, x) => {
+                            if !out.contains(s) {
+                                out.push(*s)
+                            }
+                            all_names(x, out)
+                        }
+                        _ => {}
+                    }
+                }
+                let mut names: Vec<u32> = Vec::new();
+                u.fields.iter().for_each(|f| all_names(f, &mut names));
+                u.children.iter().for_each(|c| c.fields.iter().for_each(|f| all_names(f, &mut names)));
+                if names.len() > 6 {
+                    continue;
+                }
+                let mut alphabet: Vec<u32> = if rng.chance(2, 3) { vec![0, 4, 8, 12, 16, 20] } else { PSLOTS.to_vec() };
+                match rng.below(3) {
+                    0 => rng.shuffle(&mut alphabet),
+                    1 => {
+                        // the free names first: they get `$0`, `$1`, the names a stored shape gives its own binders
+                        fn bnames(f: &CField, out: &mut Vec<u32>) {
+                            if let CField::Bind(s, x) = f {
+                                out.push(*s);
+                                bnames(x, out)
+                            }
+                        }
+                        let mut bs = Vec::new();
+                        u.fields.iter().for_each(|f| bnames(f, &mut bs));
+                        u.children.iter().for_each(|c| c.fields.iter().for_each(|f| bnames(f, &mut bs)));
+                        names.sort_by_key(|n| bs.contains(n));
+                    }
+                    _ => {}
+                }
+                let ren = |c: u32| names.iter().position(|x| *x == c).map(|i| alphabet[i]).unwrap_or(c);
+                fn ren_field(f: &CField, ren: &dyn Fn(u32) -> u32) -> CField {
+                    match f {
+                        CField::Slot(s) => CField::Slot(ren(*s)),
+                        CField::Bind(s, x) => CField::Bind(ren(*s), Box::new(ren_field(x, ren))),
+                        x => x.clone(),
+                    }
+                }
+                let dummy = ATerm { v: 16, fields: vec![CField::Lit("a".into())], children: vec![] };
+                let node_of = |w: &ATerm| to_recexpr::<Main>(&ATerm { v: w.v, fields: w.fields.iter().map(|f| ren_field(f, &ren)).collect(), children: w.children.iter().map(|_| dummy.clone()).collect() }).node;
+                let kid_var = |j: usize| format!("c{j}");
+                eqs.push(("r".to_string(), node_of(&u), (0..u.children.len()).map(kid_var).collect()));
+                let mut order: Vec<usize> = (0..u.children.len()).collect();
+                rng.shuffle(&mut order);
+                for j in order {
+                    if rng.chance(3, 4) {
+                        let c = &u.children[j];
+                        eqs.push((kid_var(j), node_of(c), (0..c.children.len()).map(|i| format!("d{j}{i}")).collect()));
+                    }
+                }
+                if rng.chance(1, 3) {
+                    // the root equation last
+                    let r = eqs.remove(0);
+                    eqs.push(r);
+                }
+                tags.push("t:decomposed-multipattern".into());
+            }
+            let n_eq = if round >= 2 { 0 } else { rng.range(1, 3) };
+            // half of the derived multi-patterns spell their slots `$0`, `$1`, ..: the names the stored shapes use for their
+            // own binders (a class invoked with such a slot must not have it captured by a node's binder)
+            let alphabet: [u32; 6] = if rng.chance(1, 2) { [0, 4, 8, 12, 16, 20] } else { PSLOTS };
             for k in 0..n_eq {
                 let t = terms[rng.below(terms.len())].clone();
                 let mut subs = Vec::new();
@@ -364,7 +469,7 @@ pub fn exec_mat(ops: Vec<Op>, seed: u64) -> Case {
                 u.fields.iter().for_each(|f| binders(f, &mut sl));
                 let node_t = ATerm { v: u.v, fields: u.fields.clone(), children: u.children.iter().map(|_| ATerm { v: 16, fields: vec![CField::Lit("a".into())], children: vec![] }).collect() };
                 let sl2 = sl.clone();
-                let node_t = rename_free(&node_t, &move |c| sl2.iter().position(|x| *x == c).map(|i| PSLOTS[i % PSLOTS.len()]).unwrap_or(c));
+                let node_t = rename_free(&node_t, &move |c| sl2.iter().position(|x| *x == c).map(|i| alphabet[i % alphabet.len()]).unwrap_or(c));
                 let node = to_recexpr::<Main>(&node_t).node;
                 let kids: Vec<String> = (0..u.children.len()).map(|j| if rng.chance(1, 3) { "c0".to_string() } else { format!("c{k}{j}") }).collect();
                 let out = if k > 0 && rng.chance(1, 2) { eqs[0].2.first().cloned().unwrap_or(format!("o{k}")) } else { format!("o{k}") };
